@@ -248,3 +248,27 @@ Proof.
     wl.
   - wl.
 Qed.
+
+Lemma w_eq_wrap a b : sword a -> sword b -> w_eq (wrap a) (wrap b) = b2z (a =? b).
+Proof.
+  intros Ha Hb. unfold w_eq. f_equal. destruct (Z.eqb_spec a b) as [->|N]; [apply Z.eqb_refl|].
+  apply Z.eqb_neq. intros E. apply N. apply wrap_inj_s; assumption.
+Qed.
+Lemma w_not0 : w_not (wrap 0) = wrap (-1). Proof. reflexivity. Qed.
+Lemma min256_wrap : w_shl (wrap 255) (wrap 1) = wrap MINS. Proof. reflexivity. Qed.
+Lemma sword_MINS : sword MINS. Proof. unfold sword. wl. Qed.
+Lemma sword_m1 : sword (-1). Proof. unfold sword. wl. Qed.
+Lemma sword_0 : sword 0. Proof. unfold sword. wl. Qed.
+Lemma w_not_eq0 y : sword y -> w_eq (w_not (wrap y)) (wrap 0) = b2z (y =? -1).
+Proof. intros Hy. unfold w_eq. change (wrap 0) with 0. rewrite wrap_eq_m1 by exact Hy. reflexivity. Qed.
+
+(* |x quot y| stays within a signed range [-h, h-1] unless x = -h and y = -1 *)
+Lemma quot_bound h x y : 1 <= h -> - h <= x <= h - 1 -> y <> 0 -> (x <> - h \/ y <> -1) ->
+  - h <= Z.quot x y <= h - 1.
+Proof.
+  intros Hh Hx N S. pose proof (quot_abs_le x y N) as A.
+  destruct (Z.eq_dec x (- h)) as [->|Nx]; [|lia].
+  destruct S as [S|S]; [lia|].
+  destruct (Z.eq_dec y 1) as [->|]; [rewrite Z.quot_1_r; lia|].
+  assert (2 * Z.abs (Z.quot (- h) y) <= h) by nia. lia.
+Qed.
